@@ -87,9 +87,14 @@ pub fn run(req: &RunRequest) -> Value {
             add_node: tape::chance("c20:add_node", 1, 3),
             span_ms: tape::range("c20:span", 500, 4000),
         };
+        ZERO_TOKEN.store(tape::chance("c20:zero_token_node", 1, 5), std::sync::atomic::Ordering::Relaxed);
         let mut cluster = Cluster::new("c20");
         for i in 0..plan.nodes + 1 {
-            let n = cluster.add_node("dc1", "r1", plan.shards, vec![(i as i64) * 1000 - 2500]);
+            // 1 in 5 layouts with >= 2 nodes: the last initial node is a zero-token node (it
+            // owns no data, is in no replica set and in no ring walk, but it is a member: it
+            // has a pool, and requests pinned to it are served).
+            let zero_token = plan.nodes >= 2 && i + 1 == plan.nodes && ZERO_TOKEN.load(std::sync::atomic::Ordering::Relaxed);
+            let n = cluster.add_node("dc1", "r1", plan.shards, if zero_token { vec![] } else { vec![(i as i64) * 1000 - 2500] });
             if i == plan.nodes {
                 // The extra node joins later (if at all).
                 cluster.nodes[n].in_ring = false;
@@ -137,6 +142,9 @@ struct UseCall {
 fn valid_identifier(s: &str) -> bool {
     !s.is_empty() && s.chars().count() <= 48 && s.chars().all(|c| c.is_ascii_alphanumeric() || c == '_')
 }
+
+/// Whether the last initial node of this run is a zero-token node.
+static ZERO_TOKEN: std::sync::atomic::AtomicBool = std::sync::atomic::AtomicBool::new(false);
 
 fn draw_candidate_name() -> String {
     let len = tape::choose("c20:name_len", 61) as usize;
@@ -199,7 +207,25 @@ async fn main(plan: Plan) -> Outcome {
 
     // Requesters.
     let mut req_handles = Vec::new();
-    for r in 0..plan.requesters {
+    // With a zero-token node: one more requester whose requests are pinned to that node
+    // (single-target load balancing) - the default policy would never pick it.
+    let pinned_profile = if ZERO_TOKEN.load(std::sync::atomic::Ordering::Relaxed) && plan.nodes >= 2 {
+        let host = uuid::Uuid::from_bytes(world::world().cluster.nodes[plan.nodes - 1].host_id);
+        out.count("zero_token_node_runs", 1);
+        Some(
+            scylla::client::execution_profile::ExecutionProfile::builder()
+                .load_balancing_policy(scylla::policies::load_balancing::SingleTargetLoadBalancingPolicy::new(
+                    scylla::policies::load_balancing::NodeIdentifier::HostId(host),
+                    None,
+                ))
+                .build()
+                .into_handle(),
+        )
+    } else {
+        None
+    };
+    for r in 0..plan.requesters + pinned_profile.is_some() as usize {
+        let pinned = if r == plan.requesters { pinned_profile.clone() } else { None };
         let session = session.clone();
         let stop = stop.clone();
         let invokes = invokes.clone();
@@ -211,6 +237,9 @@ async fn main(plan: Plan) -> Outcome {
                 invokes.lock().unwrap().push((m, world::now_ns()));
                 let mut st = Statement::new(client::q_marker(m));
                 st.set_is_idempotent(true);
+                if let Some(h) = &pinned {
+                    st.set_execution_profile_handle(Some(h.clone()));
+                }
                 let _ = session.query_unpaged(st, ()).await;
                 world::sleep_ns(gaps[i]).await;
                 i += 1;
